@@ -169,7 +169,9 @@ def inventory(ctx, prog):
                 ctx.violation("INVENTORY", "%s|%s|%s" % (prog.config, b.key, o["kind"] + ":" + o["detail"].split("::")[-1]),
                               "unsafe operation in a function with no entry in the obligation table: %s in %s" % (what, b.key), o["at"])
                 continue
-            allowed = ent[1].get(o["kind"], [])
+            allowed = list(ent[1].get(o["kind"], []))
+            if any(a.endswith("offset") for a in allowed):
+                allowed += ["::add"]        # `p.add(n)` is `p.offset(n as isize)`: same obligation (in-bounds of the same allocation)
             if not any(a in o["detail"] for a in allowed):
                 ctx.violation("INVENTORY", "%s|%s|%s" % (prog.config, b.key, o["kind"] + ":" + o["detail"].split("::")[-1]),
                               "%s performs `%s`, which its obligation entry (%s) does not cover" % (b.key, what, ent[2]), o["at"])
@@ -187,6 +189,30 @@ def raw_terms(t, acc):
     for x in t[1:]:
         if isinstance(x, tuple):
             raw_terms(x, acc)
+
+
+def _inbounds(p, conds, off, cnt, L):
+    """the from_raw_parts obligation, decided for every order type the path condition allows: no subtraction evaluated on the
+    path wraps, and offset + count <= len"""
+    ints = [c for c in conds if c[0] in ("lt", "le", "eq", "ne", "in", "notin")]
+    goals = [(table.le(b_, a_), "`%s - %s` can wrap" % (show(a_), show(b_))) for k, a_, b_ in
+             [x for x in p.assumed if isinstance(x, tuple) and x[0] == "nounder"]]
+    end = sym.mk_bin("Add", off, cnt)
+    goals.append((table.le(end, L), "offset %s + count %s can exceed the slice length" % (show(off), show(cnt))))
+    atoms = ints + [g for g, _ in goals]
+    try:
+        for case in table.enumerate_cases([table.norm_atom(a) for a in atoms]):
+            try:
+                if not all(case.holds(table.norm_atom(c)) for c in ints):
+                    continue
+                for g, why in goals:
+                    if not case.holds(table.norm_atom(g)):
+                        return "%s on this path  [case: %s]" % (why, case.describe())
+            except KeyError:
+                return "cannot order the terms of the obligation (offset %s, count %s)" % (show(off), show(cnt))
+    except table.Undecided as e:
+        return "undecided: %s" % e
+    return None
 
 
 def raw_getters(ctx, prog):
@@ -213,14 +239,7 @@ def raw_getters(ctx, prog):
                 else:
                     root, off, cnt = v[1], v[2], v[3]
                     L = sym.mk_len(root)
-                    if off == sym.I(0):
-                        if not (table.le(cnt, L) in conds or cnt == L):
-                            msg = "count %s is not bounded by the slice length on this path" % show(cnt)
-                    elif cnt == sym.mk_bin("Sub", L, off):
-                        if table.le(off, L) not in conds:
-                            msg = "offset %s is not bounded by the slice length on this path (len - offset would wrap)" % show(off)
-                    else:
-                        msg = "view (offset %s, count %s) is not of a provably in-bounds form" % (show(off), show(cnt))
+                    msg = _inbounds(p, conds, off, cnt, L)
                 if msg:
                     ctx.violation("RAW", "%s|%s" % (key, "mut" if t[0].endswith("mut") else "shared"),
                                   "%s: from_raw_parts obligation not discharged: %s  [path: %s]" % (key, msg, " & ".join(sym.show_atom(c) for c in p.conds)), b.file())
